@@ -65,6 +65,22 @@ def check_against_cpython(text, info, o):
     got = [m for m in (LINE.match(ln) for ln in text.split("\n") if ln.strip() and not ln.startswith("#")) if m]
     if len(got) != len(want):
         return "listing has %d instruction lines, CPython's dis has %d instructions" % (len(got), len(want))
+    # '>>' marks: exactly CPython's labels (dis.findlabels) and exception-handler targets, per code object
+    ver = tuple(info["version"][:2])
+    pos = 0
+    for idx in info["bfs"]:
+        oc = o["codes"][idx]
+        n = len([i for i in oc["instrs"] if i[2] != "CACHE"])
+        chunk = got[pos:pos + n]
+        pos += n
+        starts = set(int(m.group("off")) for m in chunk)
+        has_ext = any(m.group("name") == "EXTENDED_ARG" for m in chunk)
+        if "labels" in oc and not (ver < (3, 6) and has_ext):
+            want_jt = (set(oc["labels"]) | set(e[2] for e in (oc.get("exc") or []))) & starts
+            got_jt = set(int(m.group("off")) for m in chunk if m.group("jt") == ">>")
+            if got_jt != want_jt:
+                return "'>>' marks at %s, CPython's labels and handler targets are %s (difference %s)" % (
+                    sorted(got_jt)[:12], sorted(want_jt)[:12], sorted(got_jt ^ want_jt)[:8])
     for k, (m, i) in enumerate(zip(got, want)):
         off, name = int(m.group("off")), m.group("name")
         if off != i[0] or name.replace("+", "_") != i[2].replace("+", "_"):
@@ -75,6 +91,9 @@ def check_against_cpython(text, info, o):
         if i[6] is not None and not shown:
             return "line %d (%d %s): no line number, CPython's dis says it starts line %s" % (k, off, name, i[6])
         rest = m.group("rest").strip()
+        mt = re.search(r"\(to (\d+)\)", rest)
+        if mt and isinstance(i[4], int) and i[3] is not None and int(mt.group(1)) != i[4] and "JUMP" in i[2]:
+            return "line %d (%d %s): jump operand shown as 'to %s', CPython's dis resolves it to %s" % (k, off, name, mt.group(1), i[4])
         if isinstance(i[4], str) and i[3] is not None and re.match(r"^[A-Za-z_][A-Za-z0-9_]*$", i[4]) and \
                 any(t in i[2] for t in ("NAME", "FAST", "DEREF", "CLOSURE", "GLOBAL", "ATTR")) and "(" in rest:
             if ("(%s)" % i[4]) not in rest and not rest.endswith(i[4] + ")") and ("+ %s)" % i[4]) not in rest:
